@@ -235,7 +235,7 @@ add('C08', "(1) PegSem's meta expressions (@int @uint @float @bool @name) evalua
 
 # round 6 additions (appended to the level texts)
 ROUND6 = {
- 'C01': " Rules whose names differ only in underscores, tried at the same position, are in the universe.",
+ 'C01': " Rules whose names differ only in underscores, tried at the same position, are in the universe; patterns with two groups (documented value: a tuple) are part of PegSem and PegMachine (KF-C01-2).",
  'C02': " Object-model building requested at parse time (asmodel=True, a model-builder semantics) is given to both back-ends in a fresh interpreter, also on one parser object that is then asked for a plain parse.",
  'C06': " A semantics object assigned to the model after a first parse, and then replaced, must be the one whose actions run.",
  'C07': " Grammars in which a typed node was also held by a node that backtracking discarded; one walker object used again after a complete and after an aborted walk.",
